@@ -252,6 +252,38 @@ func (t *Truth) NodeOfAttempt(a *sim.Attempt) (*scen.Epoch, *model.Node) {
 	return ep, ep.NodeByPath[p]
 }
 
+// NodeOfAttemptLoose is NodeOfAttempt, except that an attempt whose route id the reference tree of its
+// epoch does not know is attributed by what it says about itself: the one node routed to for its
+// first alert that has its receiver and yields its group labels. (Whether route ids and group keys
+// are what they should be is C06's question; for C04 the "alert group" is the reference's.)
+func (t *Truth) NodeOfAttemptLoose(a *sim.Attempt) (*scen.Epoch, *model.Node) {
+	ep, n := t.NodeOfAttempt(a)
+	if ep == nil || n != nil || len(a.Alerts) == 0 {
+		return ep, n
+	}
+	var found *model.Node
+	for _, c := range ep.Root.Match(a.Alerts[0].Labels) {
+		if c.Receiver == a.Receiver && c.GroupLabels(a.Alerts[0].Labels).Key() == a.GroupLabels.Key() {
+			if found != nil {
+				return ep, nil
+			}
+			found = c
+		}
+	}
+	return ep, found
+}
+
+// SeriesKey identifies "one alert group and one receiver integration" by the reference's own notion of
+// the group (matchers along the route's path in canonical order + group labels), not by the key string
+// the implementation derived.
+func (t *Truth) SeriesKey(a *sim.Attempt) string {
+	ep, n := t.NodeOfAttemptLoose(a)
+	if ep == nil || n == nil {
+		return a.Key()
+	}
+	return fmt.Sprintf("%s:%s|%s|%s/%d", n.MatcherPath(), a.GroupLabels.Key(), a.Receiver, a.Integration, a.Idx)
+}
+
 // Successes groups successful attempts by a key function, ordered by End.
 func Successes(atts []*sim.Attempt, key func(*sim.Attempt) string) map[string][]*sim.Attempt {
 	m := map[string][]*sim.Attempt{}
